@@ -41,3 +41,158 @@ Proof.
   - rewrite Bool.eqb_reflx, N.eqb_refl. reflexivity.
   - apply String.eqb_refl.
 Qed.
+
+(* ---------------------------------------------------------------- multi-step statement:
+   eliminating a list of single-input single-output nodes one after the other preserves the set of
+   end-to-end (source port -> sink port) connections through those nodes. *)
+Section Step.
+  Variables (es es' : list edge) (n k : N) (R : list N).
+  Hypothesis Hrm : remove_mid es n k = Some es'.
+  Hypothesis HnR : ~ In n R.
+
+  Lemma step_facts : exists i o,
+    ins es n = [i] /\ outs es n = [o] /\ e_src i <> n /\ e_dst o <> n /\
+    es' = others es n ++ [mkEdge k (e_src i) (e_dst o) (e_sport i) (e_dport o)].
+  Proof.
+    unfold remove_mid in Hrm.
+    destruct (ins es n) as [|i [|i' ri]] eqn:Ei; try discriminate.
+    destruct (outs es n) as [|o [|o' ro]] eqn:Eo; try discriminate.
+    destruct (N.eqb_spec (e_src i) n) as [E|E]; [discriminate|].
+    injection Hrm as <-. exists i, o. repeat split; auto.
+    intro Hd.
+    assert (Ho : In o (ins es n)).
+    { unfold ins. apply filter_In. split.
+      - assert (In o (outs es n)) by (rewrite Eo; left; reflexivity).
+        unfold outs in H. apply filter_In in H. tauto.
+      - apply N.eqb_eq. exact Hd. }
+    rewrite Ei in Ho. destruct Ho as [Ho|[]]. subst o.
+    assert (Hi : In i (outs es n)) by (rewrite Eo; left; reflexivity).
+    unfold outs in Hi. apply filter_In in Hi. destruct Hi as [_ Hi]. apply N.eqb_eq in Hi. congruence.
+  Qed.
+
+  Lemma in_ins_unique i : ins es n = [i] -> forall e, In e es -> e_dst e = n -> e = i.
+  Proof.
+    intros Ei e He Hd. assert (In e (ins es n)) by (apply filter_In; split; [exact He|apply N.eqb_eq; exact Hd]).
+    rewrite Ei in H. destruct H as [H|[]]. congruence.
+  Qed.
+  Lemma in_outs_unique o : outs es n = [o] -> forall e, In e es -> e_src e = n -> e = o.
+  Proof.
+    intros Eo e He Hs. assert (In e (outs es n)) by (apply filter_In; split; [exact He|apply N.eqb_eq; exact Hs]).
+    rewrite Eo in H. destruct H as [H|[]]. congruence.
+  Qed.
+  Lemma in_others e : In e (others es n) <-> In e es /\ e_src e <> n /\ e_dst e <> n.
+  Proof.
+    unfold others. rewrite filter_In. rewrite andb_true_iff, !negb_true_iff, !N.eqb_neq. tauto.
+  Qed.
+
+  Lemma route_fwd : forall x q t pt, route es (n :: R) x q t pt ->
+    forall i o, ins es n = [i] -> outs es n = [o] -> e_src i <> n -> e_dst o <> n ->
+      es' = others es n ++ [mkEdge k (e_src i) (e_dst o) (e_sport i) (e_dport o)] ->
+      (x <> n -> route es' R x q t pt) /\ (x = n -> route es' R (e_dst o) (e_dport o) t pt).
+  Proof.
+    induction 1 as [x q Hx|x q o1 t pt Hx Ho1 Hs Hr IH]; intros i o Ei Eo Hin Hon Hes.
+    - split; [intro Hxn; apply route_end; intro H; apply Hx; right; exact H|].
+      intro E. exfalso. apply Hx. left. auto.
+    - destruct (IH i o Ei Eo Hin Hon Hes) as [IH1 IH2]. split.
+      + intro Hxn. assert (HxR : In x R) by (destruct Hx as [Hx|Hx]; [congruence|exact Hx]).
+        destruct (N.eq_dec (e_dst o1) n) as [Ed|Ed].
+        * assert (o1 = i) by (eapply in_ins_unique; eauto). subst o1.
+          apply route_step with (o := mkEdge k (e_src i) (e_dst o) (e_sport i) (e_dport o));
+            [exact HxR
+            |rewrite Hes; apply in_or_app; right; left; reflexivity
+            |simpl; exact Hs
+            |simpl; apply IH2; exact Ed].
+        * apply route_step with (o := o1);
+            [exact HxR
+            |rewrite Hes; apply in_or_app; left; apply in_others; repeat split; auto; congruence
+            |exact Hs
+            |apply IH1; exact Ed].
+      + intro E. subst x. assert (o1 = o) by (eapply in_outs_unique; eauto). subst o1.
+        apply IH1. exact Hon.
+  Qed.
+
+  Lemma route_bwd : forall x q t pt, route es' R x q t pt ->
+    forall i o, ins es n = [i] -> outs es n = [o] -> e_src i <> n -> e_dst o <> n ->
+      es' = others es n ++ [mkEdge k (e_src i) (e_dst o) (e_sport i) (e_dport o)] ->
+      x <> n -> route es (n :: R) x q t pt.
+  Proof.
+    induction 1 as [x q Hx|x q o1 t pt Hx Ho1 Hs Hr IH]; intros i o Ei Eo Hin Hon Hes Hxn.
+    - apply route_end. intros [H|H]; [congruence|contradiction].
+    - rewrite Hes in Ho1. apply in_app_or in Ho1. destruct Ho1 as [Ho1|[Ho1|[]]].
+      + apply in_others in Ho1. destruct Ho1 as (He & Hsn & Hdn).
+        apply route_step with (o := o1); [right; exact Hx|exact He|exact Hs|].
+        apply (IH i o); auto.
+      + subst o1. simpl in *.
+        assert (Hi : In i es).
+        { assert (In i (ins es n)) by (rewrite Ei; left; reflexivity). unfold ins in H. apply filter_In in H. tauto. }
+        assert (Hid : e_dst i = n).
+        { assert (In i (ins es n)) by (rewrite Ei; left; reflexivity). unfold ins in H. apply filter_In in H.
+          destruct H as [_ H]. apply N.eqb_eq. exact H. }
+        assert (Hoo : In o es /\ e_src o = n).
+        { assert (In o (outs es n)) by (rewrite Eo; left; reflexivity). unfold outs in H. apply filter_In in H.
+          destruct H as [H1 H2]. apply N.eqb_eq in H2. tauto. }
+        destruct Hoo as [Hoe Hos].
+        apply route_step with (o := i); [right; exact Hx|exact Hi|exact Hs|].
+        rewrite Hid. apply route_step with (o := o); [left; reflexivity|exact Hoe|exact Hos|].
+        apply (IH i o); auto.
+  Qed.
+
+  Theorem remove_mid_preserves_conn : forall w, conn es (n :: R) w <-> conn es' R w.
+  Proof.
+    destruct step_facts as (i & o & Ei & Eo & Hin & Hon & Hes).
+    intros [[[a pa] t] pt]. unfold conn. split.
+    - intros (Ha & e & He & Hs & Hp & Hr).
+      assert (Han : a <> n) by (intro E; apply Ha; left; auto).
+      split; [intro H; apply Ha; right; exact H|].
+      destruct (route_fwd _ _ _ _ Hr i o Ei Eo Hin Hon Hes) as [F1 F2].
+      destruct (N.eq_dec (e_dst e) n) as [Ed|Ed].
+      + assert (e = i) by (eapply in_ins_unique; eauto). subst e.
+        exists (mkEdge k (e_src i) (e_dst o) (e_sport i) (e_dport o)). simpl.
+        repeat split; auto. rewrite Hes. apply in_or_app. right. left. reflexivity.
+      + exists e. repeat split; auto.
+        rewrite Hes. apply in_or_app. left. apply in_others. repeat split; auto. congruence.
+    - intros (Ha & e & He & Hs & Hp & Hr).
+      rewrite Hes in He. apply in_app_or in He. destruct He as [He|[He|[]]].
+      + apply in_others in He. destruct He as (He & Hsn & Hdn).
+        split; [intros [H|H]; [congruence|contradiction]|].
+        exists e. repeat split; auto. apply (route_bwd _ _ _ _ Hr i o); auto.
+      + subst e. simpl in *. subst a pa.
+        split; [intros [H|H]; [congruence|contradiction]|].
+        assert (Hi : In i es /\ e_dst i = n).
+        { assert (In i (ins es n)) by (rewrite Ei; left; reflexivity). unfold ins in H. apply filter_In in H.
+          destruct H as [H1 H2]. apply N.eqb_eq in H2. tauto. }
+        assert (Hoo : In o es /\ e_src o = n).
+        { assert (In o (outs es n)) by (rewrite Eo; left; reflexivity). unfold outs in H. apply filter_In in H.
+          destruct H as [H1 H2]. apply N.eqb_eq in H2. tauto. }
+        destruct Hi as [Hie Hid]. destruct Hoo as [Hoe Hos].
+        exists i. repeat split; auto. rewrite Hid.
+        apply route_step with (o := o); [left; reflexivity|exact Hoe|exact Hos|].
+        apply (route_bwd _ _ _ _ Hr i o); auto.
+  Qed.
+End Step.
+
+Lemma conn_nil es w : conn es [] w <-> In w (map wire_of es).
+Proof.
+  destruct w as [[[a pa] t] pt]. unfold conn. split.
+  - intros (_ & e & He & Hs & Hp & Hr). inversion Hr; subst.
+    + apply in_map_iff. exists e. split; [|exact He]. unfold wire_of. reflexivity.
+    + match goal with H : In _ [] |- _ => destruct H end.
+  - intro H. apply in_map_iff in H. destruct H as (e & Hw & He). unfold wire_of in Hw.
+    injection Hw as <- <- <- <-. split; [intros []|].
+    exists e. repeat split; auto. apply route_end. intros [].
+Qed.
+
+(* eliminate_extra_unions_tees (any list of distinct single-in single-out nodes, removed one after
+   the other): the wires of the result are exactly the end-to-end connections of the original
+   graph through the removed nodes, ports kept at both ends. *)
+Theorem elim_preserves_wiring : forall rs es k es',
+  NoDup rs -> elim es rs k = Some es' ->
+  forall w, In w (map wire_of es') <-> conn es rs w.
+Proof.
+  induction rs as [|r rs IH]; intros es k es' Hnd He w; simpl in He.
+  - injection He as <-. symmetry. apply conn_nil.
+  - destruct (remove_mid es r k) as [es1|] eqn:E1; [|discriminate].
+    inversion Hnd as [|? ? Hr Hnd']; subst.
+    rewrite (IH es1 (k + 1) es' Hnd' He w).
+    symmetry. apply (remove_mid_preserves_conn es es1 r k rs E1 Hr).
+Qed.
